@@ -60,7 +60,7 @@ fn main() {
         }
     }
     // Panics of the code under test are caught per case; keep stderr quiet.
-    std::panic::set_hook(Box::new(|info| { if let Ok(mut l) = LAST_PANIC.lock() { *l = info.to_string(); } }));
+    std::panic::set_hook(Box::new(|info| { if let Ok(mut l) = LAST_PANIC.lock() { *l = info.to_string(); } if let Ok(mut v) = PANICS.lock() { v.push(info.to_string()); } }));
     let thorough = tier == "thorough";
     let ctx = out::Ctx::new(&suite, seed, thorough, &out, replay);
     let r = std::panic::catch_unwind(std::panic::AssertUnwindSafe(move || run_suite(&suite, ctx)));
@@ -71,6 +71,8 @@ fn main() {
 }
 
 static LAST_PANIC: std::sync::Mutex<String> = std::sync::Mutex::new(String::new());
+/// every panic message seen by the hook (tasks of the code under test that panic in the background are only visible here)
+pub static PANICS: std::sync::Mutex<Vec<String>> = std::sync::Mutex::new(Vec::new());
 
 fn run_suite(suite: &str, ctx: out::Ctx) {
     match suite {
